@@ -301,10 +301,20 @@ func runC08(c *core.Ctx) {
 			k, _ := ir.ConstInt(eng.VariadicElems(p.Common().Args[1])[0])
 			src := "?"
 			e := eng.VariadicElems(h.Common().Args[1])[0]
-			if cl := calleeNamed(e, "_hash_fold"); cl != nil {
-				src = "fold of the right subtree"
-			} else if cl, _ := ir.CallOf(e); cl != nil && cl.Common().IsInvoke() && cl.Common().Method.Name() == "GetHash" {
-				src = "stored left subtree root"
+			classify := func(e ssa.Value) string {
+				if cl := calleeNamed(e, "_hash_fold"); cl != nil {
+					return "fold of the right subtree"
+				} else if cl, _ := ir.CallOf(e); cl != nil && cl.Common().IsInvoke() && cl.Common().Method.Name() == "GetHash" {
+					return "stored left subtree root"
+				}
+				return "?"
+			}
+			src = classify(e)
+			if src == "?" {
+				// computed by a helper with one return (`storedSubTreeRoot(base, size)`)
+				ev, release := valueVia(e)
+				src = classify(ev)
+				release()
 			}
 			prs = append(prs, pr{k, src, c.P.Rel(h.Pos())})
 		}
@@ -488,10 +498,23 @@ func runC08(c *core.Ctx) {
 	if fn := c.Fn(pkM, "fileHashStore.GetHash"); fn != nil {
 		ok := false
 		for _, ci := range ir.Calls(fn, func(ci ssa.CallInstruction) bool { o := ir.CalleeObj(ci); return o != nil && o.Name() == "ReadAt" }) {
-			if mul, isM := ir.Strip(ci.Common().Args[2]).(*ssa.BinOp); isM && mul.Op == token.MUL {
-				if ir.Strip(mul.X) == ssa.Value(fn.Params[1]) || ir.Strip(mul.Y) == ssa.Value(fn.Params[1]) {
-					ok = true
+			isPos := func(v ssa.Value) bool {
+				v = ir.Strip(v)
+				if cv, isCv := v.(*ssa.Convert); isCv {
+					v = ir.Strip(cv.X)
 				}
+				return v == ssa.Value(fn.Params[1])
+			}
+			isRow := func(v ssa.Value) bool {
+				v = ir.Strip(v)
+				if cv, isCv := v.(*ssa.Convert); isCv {
+					v = ir.Strip(cv.X)
+				}
+				k, isK := ir.ConstInt(v)
+				return isK && k == 32
+			}
+			if storedHashOffset(ci.Common().Args[2], isPos, isRow, 0) {
+				ok = true
 			}
 		}
 		c.Decide(ok, "C08.node-store", fn, "node pos is read at byte offset pos × UINT256_SIZE", c.P.Rel(fn.Pos()), "")
